@@ -499,11 +499,24 @@ fn near_valid(t: &mut Tape, ctx: &mut Ctx) -> R {
             if NETS.iter().any(|m| m.bech_hrp == h || m.blech_hrp == h) {
                 h.push('z');
             }
+            let mut tag = "foreign-hrp";
+            if t.chance(96) {
+                // a human-readable part that itself contains the separator character: a real
+                // hrp, '1', then more characters (the separator is the *last* '1' of the string)
+                let real = t.choose(&[n.bech_hrp, n.blech_hrp]);
+                let extra = t.below(4);
+                let mut tail = String::new();
+                for _ in 0..extra {
+                    tail.push(t.choose(b"qpzry9x8gf2tvdw0s3jn54khce6mua7l1") as char);
+                }
+                h = format!("{}1{}", real, tail);
+                tag = "hrp-containing-separator";
+            }
             let version = t.below(17) as u8;
             let len = if version == 0 { t.choose(&[20usize, 32]) } else { gen_v1plus_len(t) };
             let prog = gen_program(t, len);
             let s = raw_segwit(&h, version, &body(&prog), blinded, version != 0);
-            (format!("foreign-hrp:{}", bl_tag), maybe_upper(t, s), Claim::Undecided)
+            (format!("{}:{}", tag, bl_tag), maybe_upper(t, s), Claim::Undecided)
         }
         2 => {
             // wrong checksum variant for the version
